@@ -132,7 +132,7 @@ def main():
                 need.add((strs[i], ops[-1][2]))
         plans.append((strs, ops))
     need = sorted(need)
-    env = dict(os.environ, PYTHONPATH="/repo/src")
+    env = dict(os.environ, PYTHONPATH=os.path.join(os.environ.get("GBS_REPO", "/repo"), "src"))
     p = subprocess.run(["/venv/bin/python", os.path.join(VERIF, "harness", "c10_baseline.py")], input="".join(json.dumps(x) + "\n" for x in need),
                        stdout=subprocess.PIPE, stderr=subprocess.DEVNULL, text=True, env=env, timeout=3000)
     lines = [json.loads(l) for l in p.stdout.strip().split("\n") if l.strip()]
